@@ -130,10 +130,13 @@ class EventDispatcher:
         if not value:
             return
 
-        # Deplete queue if enabling
-        for event_name, args, kwargs in self._event_queue:
+        # Deplete queue if enabling. Each event leaves the queue before
+        # its callbacks run, so that an exception raised by a callback
+        # (eg. Quit, SwitchWorld) cannot cause a second delivery: the
+        # events that were not reached stay queued, in order.
+        while self._event_queue:
+            event_name, args, kwargs = self._event_queue.pop(0)
             self.dispatch(event_name, *args, **kwargs)
-        self._event_queue.clear()
 
     def clear(self):
         """Remove all handlers and pending events.
